@@ -1038,11 +1038,13 @@ fn rg_lower_start<const H: usize>(st: &LState, snap: &LSnap) -> Rows {
         }
         env::BUDGET = kani::any();
         env::UNITS_ON = true;
-        env::RES = 0;
-        env::PEND = 0;
-        env::OWNED_BITS = bits;
+        env::RES = [0; env::MAXH];
+        env::PEND = [0; env::MAXH];
+        env::OWNED_BITS = [0; env::MAXH];
+        env::OWNED_BITS[0] = bits;
         env::ON = true;
         cenv::PTR = &st.ch[H / TREE_HUGE][H % TREE_HUGE] as *const Atom<HugeEntry> as usize;
+        cenv::N = 1;
         cenv::ON = true;
     }
     own
@@ -1074,7 +1076,7 @@ fn rg_lower_get_at<const ORDER: usize, const H: usize>() {
     let own = rg_lower_own();
     vcover!(r.is_ok(), "targeted allocation under interference succeeds");
     vcover!(r.is_err(), "targeted allocation under interference fails");
-    clause!(unsafe { env::RES } == 0 && unsafe { env::PEND } == 0, "C05: a completed call leaves no counter unit reserved or pending");
+    clause!(unsafe { env::RES[0] } == 0 && unsafe { env::PEND[0] } == 0, "C05: a completed call leaves no counter unit reserved or pending");
     if r.is_ok() {
         clause!(blk_all(&own0, &b, false) && rows_with_blk(&own0, &own, &b, true), "C01: a successful allocation owns exactly the returned block, under every interleaving");
     } else {
@@ -1093,7 +1095,7 @@ fn rg_lower_put<const ORDER: usize, const H: usize>() {
     let own = rg_lower_own();
     clause!(r.is_ok(), "C03: the free of a held block succeeds under every interleaving");
     clause!(rows_with_blk(&own0, &own, &b, false), "C01: a free releases exactly the block");
-    clause!(unsafe { env::RES } == 0 && unsafe { env::PEND } == 0, "C05: a completed free leaves no counter unit pending");
+    clause!(unsafe { env::RES[0] } == 0 && unsafe { env::PEND[0] } == 0, "C05: a completed free leaves no counter unit pending");
 }
 macro_rules! rg_lower_harness {
     ($f:ident, $($name:ident: ($o:expr, $h:expr)),+) => {
@@ -1135,3 +1137,88 @@ fn c03_partial_put_peer_stalled() {
     let r = lower.put(FrameId(LEN + off), 0);
     clause!(r.is_ok(), "C03: the free of a held part of a split huge frame succeeds");
 }
+
+// Lower::get (search over the huge frames of a tree) under interference, orders below the huge order:
+// counter reservation (real code, counter environment on all four entries), bit search by its
+// rely/guarantee contract, undo of the reservation on failure.
+fn rg_lower_get<const ORDER: usize, const H: usize>() {
+    let (st, snap) = rg_lower_state();
+    // this thread may already own any subset of the allocated bits of the whole tree
+    let mut own = [[0u64; ROWS]; NBF];
+    let mut bits = [0usize; NBF];
+    let mut h = 0;
+    while h < NBF {
+        let a = any_rows();
+        for_rows!(r, {
+            own[h][r] = a[r] & snap.rows[h][r];
+            bits[h] += own[h][r].count_ones() as usize;
+        });
+        h += 1;
+    }
+    unsafe {
+        env::BASE = crate::bitfield::verif_contracts::row_ptr(&st.bfs[0]) as usize;
+        env::NWORDS = NBF * ROWS;
+        let mut h = 0;
+        while h < NBF {
+            for_rows!(r, {
+                env::OWN[h * ROWS + r] = own[h][r];
+            });
+            env::OWNED_BITS[h] = bits[h];
+            env::RES[h] = 0;
+            env::PEND[h] = 0;
+            h += 1;
+        }
+        env::BUDGET = kani::any();
+        env::UNITS_ON = true;
+        env::ON = true;
+        cenv::PTR = &st.ch[0][0] as *const Atom<HugeEntry> as usize;
+        cenv::N = NBF;
+        cenv::ON = true;
+    }
+    let mut h = 0;
+    while h < NBF {
+        kani::assume(cenv::admissible_at(h, snap.ent[h]));
+        h += 1;
+    }
+    let lower = st.lower_shaped::<NBF>(NT * TREE_FRAMES);
+    let start_row: usize = kani::any();
+    kani::assume(start_row < ROWS);
+    let r = lower.get(RowId(H * ROWS + start_row), ORDER, None);
+    vcover!(r.is_ok(), "search under interference succeeds");
+    vcover!(r.is_err(), "search under interference fails");
+    let mut h = 0;
+    while h < NBF {
+        clause!(unsafe { env::RES[h] } == 0 && unsafe { env::PEND[h] } == 0, "C05: a completed call leaves no counter unit reserved or pending");
+        let mut now = [0u64; ROWS];
+        for_rows!(r2, {
+            now[r2] = unsafe { env::OWN[h * ROWS + r2] };
+        });
+        match r {
+            Ok(f) if f.0 / LEN == h => {
+                let b = blk(f.0 % LEN, ORDER);
+                clause!(f.0 % (1usize << ORDER) == 0 && f.0 < NT * TREE_FRAMES, "C01: returned block aligned and inside the tree");
+                clause!(blk_all(&own[h], &b, false) && rows_with_blk(&own[h], &now, &b, true), "C01: a successful allocation owns exactly the returned block, under every interleaving");
+            }
+            _ => clause!(rows_eq(&own[h], &now), "C01: ownership of every other huge frame is unchanged (a failed search keeps nothing)"),
+        }
+        h += 1;
+    }
+}
+macro_rules! rg_lower_get_harness {
+    ($($name:ident: ($o:expr, $h:expr)),+) => {
+        $(
+        #[kani::proof]
+        #[kani::unwind(10)]
+        #[kani::solver(kissat)]
+        #[kani::stub(crate::atomic::Atom::load, crate::atomic::Atom::load_rg)]
+        #[kani::stub(crate::atomic::Atom::store, crate::atomic::Atom::store_rg)]
+        #[kani::stub(crate::atomic::Atom::compare_exchange, crate::atomic::Atom::compare_exchange_rg)]
+        #[kani::stub(crate::atomic::Atom::try_update, crate::atomic::Atom::try_update_rg)]
+        #[kani::stub(crate::bitfield::Bitfield::set_first_zeros, crate::bitfield::Bitfield::set_first_zeros_rg_contract)]
+        fn $name() {
+            rg_lower_get::<$o, $h>();
+        }
+        )+
+    };
+}
+rg_lower_get_harness!(rg_lower_get_o0_h1: (0, 1), rg_lower_get_o3_h2: (3, 2), rg_lower_get_o7_h0: (7, 0), rg_lower_get_o8_h3: (8, 3));
